@@ -313,13 +313,18 @@ class PythonTranslator(ASTTranslator):
                 if isinstance(item.value, ast.Lambda): src = '(%s)' % src
                 if src.startswith('{') or src.endswith('}'): src = ' %s ' % src  # not a doubled (literal) brace
                 if item.conversion != -1: src += '!' + chr(item.conversion)
-                if item.format_spec is not None: src += ':' + self.fstring_body(item.format_spec)
+                spec = item.format_spec
+                if isinstance(spec, ast.Constant):  # a plain format spec as the decompiler delivers it
+                    src += ':' + spec.value.replace('{', '{{').replace('}', '}}')
+                elif spec is not None: src += ':' + self.fstring_body(spec)
                 result.append('{%s}' % src)
             else:
                 assert False
         return ''.join(result)
     def postFormattedValue(self, node):
-        return node.value.src
+        if node.conversion == -1 and node.format_spec is None: return node.value.src
+        # a replacement field which is evaluated on its own keeps its conversion and its format spec
+        return "f%r" % self.fstring_body(ast.JoinedStr(values=[node]))
 
 
 nonexternalizable_types = (ast.keyword, ast.Starred, ast.Slice, ast.List, ast.Tuple)
